@@ -6,7 +6,7 @@ from harness import core, gen, common
 
 ID = 'C12'
 LEAN_TARGETS = ['Props.C12']
-TIE_A = ['g3c_translation_rotor_eq', 'g3c_dilation_rotor_eq', 'g3c_apply_rotor_eq', 'g3c_rotor_between_planes_eq'] + ['g3c_point_pair_end_points_eq', 'g3c_sphere_center_eq', 'g3c_fast_eq', 'g3c_rot_radius_eq'] + ['quat_q2m_eq', 'quat_m2q_eq', 'quat_rotor_eq']
+TIE_A = ['g3c_translation_rotor_eq', 'g3c_dilation_rotor_eq', 'g3c_apply_rotor_eq', 'g3c_rotor_between_planes_eq'] + ['g3c_point_pair_end_points_eq', 'g3c_sphere_center_eq', 'g3c_fast_eq', 'g3c_rot_radius_eq'] + ['quat_q2m_eq', 'quat_m2q_eq', 'quat_rotor_eq', 'val_exp_eq']
 OBLIGATIONS = [
     'C12.fast_up_is_up', 'C12.fast_down_inverts_up', 'C12.translation_rotor_unit', 'C12.translation_rotor_moves', 'C12.euc_dist_sq',
     'C12.apply_rotor_compose', 'C12.one_plus_X2X1_intertwines', 'C12.fast_dual_kernel', 'C12.model_relations',
